@@ -1,1 +1,10 @@
-// hook content for interrupt_controller (filled in later)
+// Included at the end of /repo/src/cpu/interrupt_controller.rs (cfg koge29_verif): read-only accessors for
+// the pending queue (the field is private to this module).
+impl InterruptController {
+    pub fn vh_len(&self) -> usize {
+        self.interrupt_requests.len()
+    }
+    pub fn vh_get(&self, i: usize) -> u8 {
+        self.interrupt_requests[i]
+    }
+}
